@@ -59,6 +59,16 @@ for fsroot in ("/var/tmp", "/dev/shm"):
                     if not ok:
                         bad += 1
                         print("SANITY-FAIL [%s %s] xcp %s -> rc=%d %s" % (fsroot, driver, " ".join(opt + args), rc, err.strip().splitlines()[:1]))
+                if opt == ["--glob"]:
+                    # patterns: entries of a directory (a file, links to it, a link to a sibling directory), a recursive pattern over
+                    # a tree with an ordinary link to a directory, the contents idiom
+                    os.symlink("a", d + "/src/l2")
+                    os.makedirs(d + "/g1"); os.makedirs(d + "/g2"); os.makedirs(d + "/g3")
+                    for args in (["-r", "src/*", "g1"], ["-r", "src/sub/**/*", "g2"], ["-r", "src/.", "g3"], ["-r", "s*", "sing*", "g1"]):
+                        rc, err = run(["--driver", driver] + opt + args, d)
+                        if rc != 0:
+                            bad += 1
+                            print("SANITY-FAIL [%s %s] xcp %s -> rc=%d %s" % (fsroot, driver, " ".join(opt + args), rc, err.strip().splitlines()[:1]))
                 # a second copy over the first (overwrite) must work for plain files
                 rc, err = run(["--driver", driver] + [o for o in opt if o != "-n"] + ["single", "out2"], d)
                 if rc != 0 and opt != ["-n"]:
